@@ -12,24 +12,38 @@ import (
 )
 
 // ---- contract compressor standing in for gzip and lzw under the symbolic engine ----
-// Compress(x) = 0xC1, one arbitrary byte, x   (non-empty even for empty input, length differs from len(x));
-// Decompress fails on a header it did not write. Natively the real gzip / lzw run.
+// Compress(x) = 0xC1, pad length, one arbitrary byte, pad bytes, x. It is non-empty even for empty input and its
+// length differs from len(x); the framing overhead is 3 or 13 bytes (forked once per harness run: real gzip adds
+// about twenty bytes to a short record, real lzw next to nothing), so "compressed form much larger than the
+// record" is among the explored cases. Decompress fails on a header it did not write. Natively the real gzip /
+// lzw run.
 
 var vErrContract = errors.New("contract compressor: bad header")
 var vCompN int
+var vCompPad int
 
 func vContractCompress(record []byte, dst []byte) ([]byte, error) {
 	vCompN++
-	out := append(dst[:0], 0xC1, vrt.Byte(vrt.K("comp.hdr", vCompN)))
+	if vCompPad < 0 {
+		vCompPad = 10 * vrt.Choose("comp.pad", 2)
+	}
+	out := append(dst[:0], 0xC1, byte(vCompPad), vrt.Byte(vrt.K("comp.hdr", vCompN)))
+	for i := 0; i < vCompPad; i++ {
+		out = append(out, 0xC2)
+	}
 	out = append(out, record...)
 	return out, nil
 }
 
 func vContractDecompress(buf []byte, dst []byte) ([]byte, error) {
-	if len(buf) < 2 || buf[0] != 0xC1 {
+	if len(buf) < 3 || buf[0] != 0xC1 {
 		return nil, vErrContract
 	}
-	return append(dst[:0], buf[2:]...), nil
+	n := int(buf[1])
+	if n != 0 && n != 10 || len(buf) < 3+n {
+		return nil, vErrContract
+	}
+	return append(dst[:0], buf[3+n:]...), nil
 }
 
 func vInstallContractCompressors() {
@@ -37,6 +51,7 @@ func vInstallContractCompressors() {
 		return
 	}
 	vCompN = 0
+	vCompPad = -1 // chosen at the first use
 	const p = "(*github.com/thomasjungblut/go-sstables/recordio/compressor."
 	vrt.Redirect(p+"GzipCompressor).Compress", func(c *compressor.GzipCompressor, r []byte) ([]byte, error) {
 		return vContractCompress(r, nil)
